@@ -286,7 +286,7 @@ def dot_gate_all_backends(ck, prog):
             ck.violation(rule, inst, rx, "", expected="anchor exists", found=f"{len(bs)} bodies")
             continue
         b = bs[0]
-        n, bad = dot_vector_gate(b)
+        n, bad = dot_vector_gate(b, prog)
         site = f"{b.loc[0]}:{b.loc[1]}"
         if bad:
             ck.violation(rule, inst, b.path, site, expected="a return is reachable iff each operand has a unit dimension (as on the built-in backend)",
